@@ -25,8 +25,10 @@
 //!
 //! `truth probe <results.ndjson>`
 //!     Facts about paths the model does not walk: the runtime commit path (`commit_with_state` via
-//!     `super_tick`) with a host emission placed on the engine's bus beforehand, and emissions made outside
-//!     any transaction.
+//!     `super_tick`) with a host emission placed on the engine's bus beforehand, emissions made outside
+//!     any transaction / abort of a TxId that is not live, and a commit that fails AFTER the transaction
+//!     emitted (a rule executor panics) followed by the host's possible reactions (next transaction without
+//!     abort, abort first, retry).
 
 use std::collections::{BTreeMap, BTreeSet};
 
